@@ -295,6 +295,8 @@ def sig_of(case, x=None):
         sig["topk_partials_fit_k"] = topk_partials_fit_k(case)
     if case["op"] in SCAN:
         sig["method"] = case.get("method", "sequential")
+        # axis=None on a >= 2-d array: dask flattens (reshape + rechunk) first and scans the 1-d result
+        sig["scan_flattens"] = case["axis"] is None and len(case["array"]["shape"]) >= 2
     if x is not None and case["op"] in ARG:
         sig["tied_extremum"] = tied_extremum(case, x)
     return sig
